@@ -543,6 +543,18 @@ func c03Generated(cs *vrt.Case, r *vrt.Rng, cfg mpclgen.Config) {
 			}
 		}
 	}
+	// classify: is it the literal-representation finding (a non-negative literal
+	// assigned in a branch to a signed variable wider than the literal's 32/64-bit
+	// storage comes out sign-extended from that storage)?
+	if p.Feat["literal-select-top-storage-bit"] && w.args != nil {
+		if c2, err, pan := compileMPCL(p.Src, mk(), nil); err == nil && pan == nil {
+			flat, _ := refc.EvalFlat(c2, []*big.Int{flattenArgs(w.args)})
+			if res, err := p.RunLitSext(w.args); err == nil && flat != nil && flat[0].Cmp(flattenArgs(res)) == 0 {
+				cs.Violate("C03|literal-select|non-negative-literal-sign-extended-from-its-storage-width", "a non-negative literal with the top bit of its 32/64-bit storage set, assigned in a branch to a wider signed variable, is sign-extended from the storage width: "+w.where, desc)
+				return
+			}
+		}
+	}
 	cs.Violate("C03|generated-mismatch", "compiled circuit disagrees with the program's semantics: "+w.where, desc)
 }
 
